@@ -243,36 +243,10 @@ def run(ctx, report: Report) -> None:
         r4.violation('css_parser._cached_css_compile lru_cache', pmod.where(cached),
                      f'_cached_css_compile is not decorated with lru_cache(maxsize=<positive int>) (maxsize={maxsize}): the '
                      f'pattern cache is unbounded or absent')
+    cache_key_rule(ctx, r4)
     cparams = [a.arg for a in cached.args.args]
-    call = [c for c in ast.walk(cfn) if isinstance(c, ast.Call) and call_name(c).endswith('_cached_css_compile')]
-    if len(call) != 1:
-        raise AnalysisError('compile(): call of _cached_css_compile not found')
-    call = call[0]
     p_pat, p_ns, p_flags = [a.arg for a in cfn.args.args[:3]]
     p_custom = cfn.args.kwonlyargs[0].arg if cfn.args.kwonlyargs else 'custom'
-    expect = {'pattern': (p_pat, None), 'namespaces': (p_ns, 'css_types.Namespaces'),
-              'custom': (p_custom, 'css_types.CustomSelectors'), 'flags': (p_flags, None)}
-    if len(call.args) != len(cparams) or call.keywords:
-        raise AnalysisError('compile(): unexpected argument shape in the _cached_css_compile call')
-    for pname, a in zip(cparams, call.args):
-        src_name, wrapper = expect.get(pname, (None, None))
-        if src_name is None:
-            raise AnalysisError(f'_cached_css_compile parameter {pname} is not one of pattern/namespaces/custom/flags')
-        if wrapper is None:
-            ok = isinstance(a, ast.Name) and a.id == src_name
-            why = f'must be `{src_name}` itself'
-        else:
-            ok = (isinstance(a, ast.IfExp) and src.resolve_class_ref(imod, a.body.func if isinstance(a.body, ast.Call) else a.body) == wrapper
-                  and isinstance(a.body, ast.Call) and [unparse(x) for x in a.body.args] == [src_name]
-                  and boolpaths.norm_atom(a.test) == (f'{src_name} is None', False)
-                  and unparse(a.orelse) == src_name)
-            why = f'must be `{wrapper.split(".")[1]}({src_name}) if {src_name} is not None else {src_name}`'
-        r4.instance({'cache_key_part': pname, 'argument': unparse(a), 'ok': ok}, key=pname)
-        r4.obligation(ok)
-        if not ok:
-            r4.violation(f'__init__.compile cache key {pname}', imod.where(call),
-                         f'compile() passes `{unparse(a)}` as {pname} to the cached function; it {why} - otherwise the '
-                         f'cache is keyed on too little, on a transformed value, or on an unhashable object')
     # the cached function reads nothing but its parameters and module-level constants / functions
     free = set()
     import builtins
@@ -328,3 +302,41 @@ def run(ctx, report: Report) -> None:
     if not ok:
         r4.violation('__init__.compile pass-through identity', imod.where(iso),
                      'compile(compiled_selector) does not return that same object on every path')
+
+
+def cache_key_rule(ctx, r4):
+    """compile() hands exactly its four inputs to the lru_cache'd function, the maps wrapped under an is-not-None test
+    (shared with C06: a truthiness test lets an empty dict through, which is unhashable)."""
+    src, inv = ctx.src, ctx.consts
+    imod, cfn = src.func('__init__.compile')
+    pmod, cached = src.func('css_parser._cached_css_compile')
+    cparams = [a.arg for a in cached.args.args]
+    call = [c for c in ast.walk(cfn) if isinstance(c, ast.Call) and call_name(c).endswith('_cached_css_compile')]
+    if len(call) != 1:
+        raise AnalysisError('compile(): call of _cached_css_compile not found')
+    call = call[0]
+    p_pat, p_ns, p_flags = [a.arg for a in cfn.args.args[:3]]
+    p_custom = cfn.args.kwonlyargs[0].arg if cfn.args.kwonlyargs else 'custom'
+    expect = {'pattern': (p_pat, None), 'namespaces': (p_ns, 'css_types.Namespaces'),
+              'custom': (p_custom, 'css_types.CustomSelectors'), 'flags': (p_flags, None)}
+    if len(call.args) != len(cparams) or call.keywords:
+        raise AnalysisError('compile(): unexpected argument shape in the _cached_css_compile call')
+    for pname, a in zip(cparams, call.args):
+        src_name, wrapper = expect.get(pname, (None, None))
+        if src_name is None:
+            raise AnalysisError(f'_cached_css_compile parameter {pname} is not one of pattern/namespaces/custom/flags')
+        if wrapper is None:
+            ok = isinstance(a, ast.Name) and a.id == src_name
+            why = f'must be `{src_name}` itself'
+        else:
+            ok = (isinstance(a, ast.IfExp) and src.resolve_class_ref(imod, a.body.func if isinstance(a.body, ast.Call) else a.body) == wrapper
+                  and isinstance(a.body, ast.Call) and [unparse(x) for x in a.body.args] == [src_name]
+                  and boolpaths.norm_atom(a.test) == (f'{src_name} is None', False)
+                  and unparse(a.orelse) == src_name)
+            why = f'must be `{wrapper.split(".")[1]}({src_name}) if {src_name} is not None else {src_name}`'
+        r4.instance({'cache_key_part': pname, 'argument': unparse(a), 'ok': ok}, key=pname)
+        r4.obligation(ok)
+        if not ok:
+            r4.violation(f'__init__.compile cache key {pname}', imod.where(call),
+                         f'compile() passes `{unparse(a)}` as {pname} to the cached function; it {why} - otherwise the '
+                         f'cache is keyed on too little, on a transformed value, or on an unhashable object')
